@@ -1088,6 +1088,7 @@ static void cmd_term(const std::vector<std::string> &tk)
 // count of every held node
 // ---------------------------------------------------------------------
 static std::map<std::string, node_handle> NODES;
+static std::map<std::string, node_handle> TOKENS;   // cache entries made by ncache
 static std::string NODEFOREST;
 
 static void nodeObs()
@@ -1098,6 +1099,12 @@ static void nodeObs()
     for (auto &p : NODES) {
         s << " " << p.first << "=";
         if (p.second > 0) s << F->getNodeInCount(p.second); else s << 0;
+        // the handle itself (the model checks the reuse discipline with it)
+        s << "@" << (p.second > 0 ? p.second : 0);
+    }
+    for (auto &p : TOKENS) {
+        s << " " << p.first << "=" << F->verif_cacheCount(p.second)
+          << (F->isActiveNode(p.second) ? "a" : "z");
     }
     emit(s.str());
 }
@@ -1107,8 +1114,10 @@ static void dropHeldNodes()
     if (NODEFOREST.empty()) return;
     auto it = FORS.find(NODEFOREST);
     if (it != FORS.end() && it->second.alive) {
+        for (auto &p : TOKENS) it->second.F->uncacheNode(p.second);
         for (auto &p : NODES) if (p.second > 0) it->second.F->unlinkNode(p.second);
     }
+    TOKENS.clear();
     NODES.clear();
     NODEFOREST.clear();
 }
@@ -1161,6 +1170,32 @@ static void cmd_ndrop(const std::vector<std::string> &tk)
     forest* F = forestOf(NODEFOREST).F;
     F->unlinkNode(it->second);
     NODES.erase(it);
+    nodeObs();
+}
+
+//   ncache T X             a cache entry T starts to mention X's node (forest::cacheNode)
+//   nuncache T             that entry is removed (forest::uncacheNode)
+static void cmd_ncache(const std::vector<std::string> &tk)
+{
+    if (tk.size() < 3) throw Bad("ncache syntax");
+    if (TOKENS.count(tk[1])) throw Bad("ncache: token in use");
+    auto it = NODES.find(tk[2]);
+    if (it == NODES.end()) throw Bad("ncache: unknown node");
+    forest* F = forestOf(NODEFOREST).F;
+    if (it->second > 0) {
+        F->cacheNode(it->second);
+        TOKENS[tk[1]] = it->second;
+    }
+    nodeObs();
+}
+
+static void cmd_nuncache(const std::vector<std::string> &tk)
+{
+    auto it = TOKENS.find(tk[1]);
+    if (it == TOKENS.end()) throw Bad("nuncache: unknown token");
+    forest* F = forestOf(NODEFOREST).F;
+    F->uncacheNode(it->second);
+    TOKENS.erase(it);
     nodeObs();
 }
 
@@ -1462,6 +1497,8 @@ static void run(const std::vector<std::string> &tk)
     else if (c == "nnew") cmd_nnew(tk);
     else if (c == "ndup") cmd_ndup(tk);
     else if (c == "ndrop") cmd_ndrop(tk);
+    else if (c == "ncache") cmd_ncache(tk);
+    else if (c == "nuncache") cmd_nuncache(tk);
     else if (c == "mm") cmd_mm(tk);
     else throw Bad("unknown command " + c);
 }
